@@ -61,6 +61,13 @@ static bool cnan(double v) {
 #endif
 }
 
+static bool czero(double v) {
+  // Compare the bits: a program linked with -ffast-math runs with denormals-
+  // are-zero set, and then every subnormal compares equal to 0.0.
+  union { double d; uint64_t x; } u = { v };
+  return ((u.x << 1) == 0);
+}
+
 struct DiyFp {
   DiyFp() {}
 
@@ -437,7 +444,7 @@ void pdtoa(double value, char *buffer) {
     buffer[1] = 'a';
     buffer[2] = 'n';
     buffer[3] = '\0';
-  } else if (value == 0.0) {
+  } else if (czero(value)) {
     buffer[0] = '0';
     buffer[1] = '.';
     buffer[2] = '0';
